@@ -35,7 +35,9 @@ def gen(rng, tier):
                 ops.append([0, a, b, rng.choice([0, 1, 1, 2, 2])])
             elif r < 0.7: ops.append([1])
             elif r < 0.8: ops.append([2])
-            elif r < 0.9: ops.append([3])
+            elif r < 0.9:
+                a, b = rng.choice(E) if E else (0, 0)
+                ops.append([3, a, b, rng.choice([0, 1, 2])])      # reverse(), then the RESULT is modified: the original must not move (and vice versa)
             else: ops.append([4, rng.randrange(n), rng.randrange(n + 1)])
         out.append({"G": G, "init": init, "ops": ops, "mode": mode, "s": rng.randrange(1 << 30)})
     return out
@@ -58,7 +60,7 @@ def impl(c):
     g = common.build_impl_graph(G, rng); gd = g.to_dict()
     try: o = CFOrientation(g, [(ext[a], ext[b]) for a, b in c["init"]])
     except ValueError: return {"init": "err", "graph_same": g.to_dict() == gd}
-    out = {"init": "ok", "st0": _dump(G, o), "steps": []}
+    out = {"init": "ok", "st0": _dump(G, o), "steps": []}; held = []
     ST = {0: OrientationState.NO_ORIENTATION, 1: OrientationState.SOURCE_TO_SINK, 2: OrientationState.SINK_TO_SOURCE}
     for op in c["ops"]:
         res = None; before = _dump(G, o)
@@ -68,19 +70,25 @@ def impl(c):
             elif op[0] == 2:
                 d = o.divisor(); dl = common.div_to_list(G, d); K = common.div_to_list(G, o.canonical_divisor()); rv = common.div_to_list(G, o.reverse().divisor())
                 res = ["ok", dl, {"deg": d.get_total_degree(), "genus": g.get_genus(), "K": K, "rev": rv}]
-            elif op[0] == 3: res = ["ok", _dump(G, o.reverse())]
+            elif op[0] == 3:
+                R = o.reverse(); res = ["ok", _dump(G, R)]
+                if len(op) > 1:
+                    try: R.set_orientation(Vertex(names[op[1]]), Vertex(names[op[2]]), ST[op[3]])
+                    except (ValueError, RuntimeError, KeyError): pass
+                    held.append([R, _dump(G, R)])
             else:
                 r = o.get_orientation(ext[op[1]], ext[op[2]]); res = ["ok", 0 if r is None else (1 if r == (ext[op[1]], ext[op[2]]) else 2)]
         except (ValueError, RuntimeError, KeyError): res = ["err"]
         st = _dump(G, o)
         out["steps"].append({"res": res, "st": st, "unchanged_on_err": (res != ["err"]) or st == before})
     out["graph_same"] = g.to_dict() == gd
+    out["held"] = [[then, _dump(G, R)] for R, then in held]      # reversed copies taken along the way: as they were left, and now
     if c["mode"] == "acyclic":
         o2 = CFOrientation(g, [(names[a], names[b]) for a, b in c["init"]]); out["acyclic_winnable"] = bool(is_winnable(o2.divisor()))
     return out
 def model_lines(c):
     toks = ["ohist"] + common.enc_graph(c["G"]) + [len(c["init"])] + [x for p in c["init"] for x in p] + [len(c["ops"])]
-    for op in c["ops"]: toks += op
+    for op in c["ops"]: toks += (op if op[0] != 3 else [3])
     return [toks]
 def _pst(txt, n):
     a, b, cc = txt.split(";"); a = [int(x) for x in a.split()]
@@ -112,6 +120,12 @@ def judge(c, r, mo):
             if ir["res"][:len(exp)] != exp: return [{"what": "op #%d %s: implementation %s, model %s" % (i, op, ir["res"], exp)}]
         if ir["st"] != mst: return [{"what": "after op #%d %s: %s, model %s" % (i, op, ir["st"], mst)}]
     if o.get("acyclic_winnable"): return [{"what": "the divisor of an acyclic orientation (vertex order) is reported winnable"}]
+    M = common.matrix(c["G"])
+    for then, now in o.get("held", []):
+        if then != now: return [{"what": "an orientation returned by reverse() changed when the original was modified afterwards: %s -> %s" % (then, now)}]
+        d = now["dir"]
+        inc = [sum(M[v][w] for w in range(n) if M[v][w] and d[w][v] == 1) for v in range(n)]; outc = [sum(M[v][w] for w in range(n) if M[v][w] and d[v][w] == 1) for v in range(n)]
+        if inc != now["inc"] or outc != now["out"]: return [{"what": "a modified reverse() result has counters %s/%s but its own edges give %s/%s" % (now["inc"], now["out"], inc, outc)}]
     return []
 def oracle(c, r):
     """recount from the stored directions"""
@@ -135,6 +149,9 @@ def oracle(c, r):
             got = (ir["res"][0] == 1) if c["ops"][i - 1][0] == 1 else (ir["res"][0] == "ok")
             if got != full: return {"violates": True, "why": "step %d: fullness reported %s, actually %s" % (i - 1, got, full)}
     if o.get("acyclic_winnable"): return {"violates": True, "why": "acyclic orientation divisor winnable"}
+    for then, now in o.get("held", []):
+        if then != now: return {"violates": True, "why": "reverse() result moved with the original"}
+        if bad(now): return {"violates": True, "why": "modified reverse() result: %s" % bad(now)}
     return {"violates": False}
 def nontrivial(cases): return len({str((c["G"]["edges"], c["init"], c["ops"])) for c in cases if len(c["G"]["edges"]) >= 2 and len(c["ops"]) >= 2})
 def distribution(cases):
